@@ -3,13 +3,18 @@ import random
 
 import families
 import oracle
-from common import fail, make_sd, net_info, run_history, run_step, state_or_none, states_json
+from common import fail, make_sd, net_info, run_step, state_or_none
+from oracle import intersect, is_subspace
 
-BOUND = ("hand-built motif-avoidant networks (MAA core alone and composed with 1-3 latches, switches, toggles, sources, a second core; <= 9 variables) "
+BOUND = ("hand-built motif-avoidant networks (MAA core alone and composed with 1-3 latches, switches, toggles, sources, a second core; <= 9 variables) and "
+         "block-structured ones with <= 7 variables (motif-avoidant module regulating a bistable module; module conditioned by a source or by a bistable controller) "
          "first, then hand-built and seeded random networks with <= 6 variables; history = seeded prefix of <= 3 limited plain expansion calls "
          "interleaved with attractor queries on stubs, then skip_remaining / skip_to_minimal on every stub / minimal-space expansion with skip_ignored "
          "(followed by skip_remaining if stubs remain), then node_attractor_seeds(compute=True) for all node ids in ascending, descending or a seeded "
-         "random order; the D12 history is the first case")
+         "random order; the D12 history is the first case.  Classification of a lost attractor: the cache state of all nodes is recorded before every attractor "
+         "query the checker issues; kind lost_maa_under_skip_exclusion (finding D12) only if every node owning the attractor is a skip node for which the exclusion "
+         "rule as written in the unchanged tree (non-ancestor node with cached candidates == [] or seeds == []), evaluated by the checker's own implementation on the "
+         "state recorded before that node was searched, removes a region containing the attractor; otherwise lost_attractor")
 RULE = "non-trivial = at least one skip node was created and the network has >= 2 attractors or a motif-avoidant attractor"
 CASE_TIMEOUT = 60.0
 
@@ -19,7 +24,15 @@ D12_HISTORY = [["bfs", None, 0, None], ["succ", 2]]
 def cases(seed, tier):
     yield {"net": "D12", "bnet": families.HAND["D12"], "prefix": D12_HISTORY, "skip": ["skip_remaining"], "order": "asc"}
     ops = families.PLAIN_OPS + ["seeds", "cands", "skip"]
-    nets = list(families.maa_nets())
+    # block-structured motif-avoidant networks (module conditioned by a source / a bistable controller, module regulating a bistable module): every way of skipping on a
+    # fresh diagram and after the root was expanded, ids ascending
+    blocks = [(n, b) for n, b in families.block_nets(seed, tier) if len(families.variables(b)) <= 7]
+    for name, bnet in blocks[:60] if tier == "quick" else blocks:
+        for pre in ([], [["succ", 0]]):
+            for skip in (["min", None, None, True], ["skip_remaining"], ["skip_all"]):
+                yield {"net": name, "bnet": bnet, "prefix": pre, "skip": skip, "order": "asc", "perm_seed": 0}
+    nets = list(families.maa_nets()) + [("xnor_2switch", families.union(families.XNOR2, families.switch(1), families.switch(2))),
+                                        ("xnor_switch_toggle", families.union(families.XNOR2, families.switch(), families.toggle()))] + blocks[:40]
     rounds = 6 if tier == "quick" else 30
     for rnd in range(rounds):
         for name, bnet in nets:
@@ -41,11 +54,118 @@ def make_case(seed, rnd, name, bnet, ops):
     return {"net": name, "bnet": bnet, "prefix": pre, "skip": skip, "order": rng.choice(["asc", "desc", "perm"]), "perm_seed": rng.randrange(1000)}
 
 
+def cache_snapshot(sd):
+    """What the skip-node exclusion rule reads: for every node its space and whether its cached candidates / seeds are the EMPTY LIST (None = unknown)."""
+    snap = {}
+    for n in sd.node_ids():
+        d = sd.node_data(n)
+        snap[n] = (dict(d["space"]), d["attractor_candidates"] is not None and list(d["attractor_candidates"]) == [],
+                   d["attractor_seeds"] is not None and list(d["attractor_seeds"]) == [])
+    return snap
+
+
+def rule_exclusions(node_space, snap):
+    """Independent re-implementation of the exclusion rule AS WRITTEN in the unchanged tree (attractor_candidates.compute_attractor_candidates, block
+    `if node_data["skipped"]:`, and the same rule in attractor_symbolic.symbolic_attractor_fallback): for a skip node with space S, every node n whose space is
+    NOT a superspace-or-equal of S and whose cached candidates == [] or cached seeds == [] contributes the region S & space(n) (if non-empty) that is
+    removed from the search.  Returns [(n, common subspace)]."""
+    out = []
+    for n, (n_space, cand_empty, seeds_empty) in snap.items():
+        if is_subspace(node_space, n_space):
+            continue  # n is an ancestor-or-equal of the node in the full diagram
+        if cand_empty or seeds_empty:
+            common = intersect(node_space, n_space)
+            if common is not None:
+                out.append((n, common))
+    return out
+
+
+class Observer:
+    """Records, before every attractor query the checker issues, the cache state of all nodes, and remembers for every node the state under which its
+    currently cached result was computed (the state the exclusion rule saw)."""
+
+    def __init__(self):
+        self.rule_state = {}  # node id -> snapshot taken just before the query that computed its cached candidates (or its seeds via the symbolic fallback)
+        self.queries = 0
+
+    def before(self, sd):
+        for i in list(self.rule_state):
+            d = sd.node_data(i) if i < len(sd) else None
+            if d is None or (d["attractor_candidates"] is None and d["attractor_seeds"] is None):
+                del self.rule_state[i]  # the cache was discarded (the node was expanded / skipped meanwhile)
+        return cache_snapshot(sd), {i: (sd.node_data(i)["attractor_candidates"] is None, sd.node_data(i)["attractor_seeds"] is None) for i in sd.node_ids()}
+
+    def after(self, sd, before):
+        snap, unknown = before
+        self.queries += 1
+        for i, (cand_none, seeds_none) in unknown.items():
+            if i >= len(sd):
+                continue
+            d = sd.node_data(i)
+            if (cand_none and d["attractor_candidates"] is not None) or (cand_none and seeds_none and d["attractor_seeds"] is not None):
+                self.rule_state[i] = snap
+
+
+def run_observed(sd, step, obs):
+    """run_step, with the cache state recorded around attractor queries (the only steps of C05 histories that compute attractor data of the diagram's own nodes)."""
+    if step[0] in ("seeds", "cands", "sets"):
+        b = obs.before(sd)
+        sd, r = run_step(sd, step)
+        obs.after(sd, b)
+        return sd, r
+    return run_step(sd, step)
+
+
+def explain_loss(sd, net, obs, a):
+    """Is the loss of attractor `a` (reported by no node) FULLY explained by exclusions that the rule-as-written performs on the observed cache states?
+    Returns (explained, text).  Explained = every node that owns `a` (contains it, none of its successors does) is a skip node whose candidates were computed
+    under an observed cache state for which the rule-as-written removes a region containing `a` from the search."""
+    owners = []
+    for i in sd.node_ids():
+        sp = sd.node_data(i)["space"]
+        if a & ~net.mask(sp):
+            continue
+        if any(a & ~net.mask(sd.node_data(c)["space"]) == 0 for c in sd.dag.successors(i)):
+            continue
+        owners.append(i)
+    if not owners:
+        return False, "no node owns the attractor (it is inside a successor of every node that contains it)"
+    notes = []
+    explained = True
+    for i in owners:
+        d = sd.node_data(i)
+        if not d["skipped"]:
+            explained = False
+            notes.append(f"node {i} {dict(sorted(d['space'].items()))} is an ordinary node that owns it")
+            continue
+        snap = obs.rule_state.get(i)
+        if snap is None:
+            explained = False
+            notes.append(f"skip node {i}: its cached result was not computed by a query the checker observed")
+            continue
+        hits = [(n, common) for n, common in rule_exclusions(d["space"], snap) if a & ~net.mask(common) == 0]
+        if hits:
+            n, common = hits[0]
+            notes.append(f"skip node {i}: the rule as written excludes {dict(sorted(common.items()))} = node {i} & node {n} (node {n} had "
+                         f"{'candidates == []' if snap[n][1] else 'seeds == []'} when node {i} was searched)")
+        else:
+            explained = False
+            unknown = [n for n, (n_space, ce, se) in snap.items() if not (ce or se) and not is_subspace(d["space"], n_space) and intersect(d["space"], n_space) is not None
+                       and a & ~net.mask(intersect(d["space"], n_space)) == 0]
+            outside = [c for c in sd.dag.successors(i) if not is_subspace(sd.node_data(c)["space"], d["space"])]
+            notes.append(f"skip node {i} {dict(sorted(d['space'].items()))} owns it and the rule as written (evaluated on the cache state observed before node {i} was "
+                         f"searched) excludes no region containing it; nodes overlapping it there whose caches were NOT empty lists: {unknown}; "
+                         f"successors of the skip node outside its space: {outside}")
+    return explained, "; ".join(notes)
+
+
 def check_with_info(case):
     net = oracle.Net.from_bnet(case["bnet"])
     info = net_info(net)
     sd = make_sd(case["bnet"])
-    sd, _ = run_history(sd, case["prefix"])
+    obs = Observer()
+    for step in case["prefix"]:
+        sd, _ = run_observed(sd, step, obs)
     sd, r = run_step(sd, case["skip"])
     if list(sd.stub_ids()):
         sd, _ = run_step(sd, ["skip_remaining"])
@@ -55,6 +175,12 @@ def check_with_info(case):
     out = []
     if list(sd.stub_ids()):
         out.append(fail("stub_after_skipping", "the remaining nodes are skipped", observed=list(sd.stub_ids())))
+    for i in skip_nodes:
+        sp = sd.node_data(i)["space"]
+        bad = [c for c in sd.dag.successors(i) if not is_subspace(sd.node_data(c)["space"], sp)]
+        if bad:
+            out.append(fail("skip_edge_to_trap_outside_node", "the remaining nodes are skipped to THEIR minimal trap spaces (every successor of a skip node lies inside it)",
+                            f"skip node {i} {dict(sorted(sp.items()))}", observed=[sd.node_data(c)["space"] for c in bad]))
     ids = list(sd.node_ids())
     if case["order"] == "desc":
         ids.reverse()
@@ -62,7 +188,9 @@ def check_with_info(case):
         random.Random(case.get("perm_seed", 0)).shuffle(ids)
     count = {a: 0 for a in net.attractors()}
     for i in ids:
+        b = obs.before(sd)
         seeds = sd.node_attractor_seeds(i, compute=True)
+        obs.after(sd, b)
         m = net.mask(sd.node_data(i)["space"])
         for s in seeds:
             st = state_or_none(net, s)
@@ -74,15 +202,15 @@ def check_with_info(case):
             else:
                 count[a] += 1
     maas = net.motif_avoidant()
-    skip_masks = [net.mask(sd.node_data(i)["space"]) for i in skip_nodes]
+    info["queries_observed"] = obs.queries
     for a, c in count.items():
         rep = net.state_dict(net.states(a)[0])
         if c == 0:
-            in_skip = any(a & ~m == 0 for m in skip_masks)
-            kind = "lost_maa_under_skip_exclusion" if (a in maas and in_skip) else "lost_attractor"
+            explained, why = explain_loss(sd, net, obs, a)
+            # known finding D12 = lost SOLELY because of exclusions the rule-as-written performs; anything else is a new violation
+            kind = "lost_maa_under_skip_exclusion" if explained else "lost_attractor"
             out.append(fail(kind, "attractor detection over all nodes reports every attractor of the network at least once",
-                            f"attractor of size {bin(a).count('1')} containing {rep}; motif-avoidant={a in maas}; inside a skip node={in_skip}",
-                            observed=0, expected=">= 1"))
+                            f"attractor of size {bin(a).count('1')} containing {rep}; motif-avoidant={a in maas}; {why}", observed=0, expected=">= 1"))
         elif c > 1 and not maas:
             out.append(fail("duplicate_without_maa", "if the network has no motif-avoidant attractor, every attractor is reported exactly once",
                             f"attractor containing {rep}", observed=c, expected=1))
